@@ -3,7 +3,11 @@
 package app
 
 import (
+	"io/fs"
+	"os"
+
 	m "github.com/Eyevinn/dash-mpd/mpd"
+	"github.com/Eyevinn/mp4ff/mp4"
 )
 
 // C03 — audio is re-segmented to follow video boundaries without loss or duplication.
@@ -173,4 +177,63 @@ func vC03Time(a *asset, repID string) {
 	_, errOff := findRefSegMetaFromTime(a, rep, uint64(t+off), cfg, 0)
 	vAssert("C03.time.non-frame-boundary-rejected", errOff != nil)
 	vReach("C03.time.end")
+}
+
+// ---- the caller glue createAudioSegment (reference lookup -> recipe -> output meta) on a video grid whose segment
+// boundaries are not whole milliseconds: 29.97 fps, 75-frame segments of 2502.5 ms (timescale 30000, 2 segments,
+// 5005 ms loop) with the bundled AAC track of testpic_2s. The served audio segment n starts at the first frame
+// boundary at or after the exact start of video segment n and ends at the first one at or after its exact end.
+
+func init() {
+	vHarnesses["vH_C03_served_fracms"] = vH_C03_served_fracms
+	vHarnesses["vH_C03_served_testpic2s"] = vH_C03_served_testpic2s
+}
+
+func vStubCreateAudioSegNone(vodFS fs.FS, a *asset, recipe audioRecipe) (*mp4.MediaSegment, error) {
+	return nil, nil
+}
+
+func vAssetFracMS() *asset {
+	a := vAsset_testpic_2s()
+	v := a.Reps["V300"]
+	v.MediaTimescale = 30000
+	v.Segments = []Segment{{StartTime: 0, EndTime: 75075, Nr: 1}, {StartTime: 75075, EndTime: 150150, Nr: 2}}
+	a.LoopDurMS = 5005
+	a.SegmentDurMS = 2502
+	a.refRep = v
+	return a
+}
+
+func vH_C03_served_fracms()    { vC03Served(vAssetFracMS()) }
+func vH_C03_served_testpic2s() { vC03Served(vAsset_testpic_2s()) }
+
+func vC03Served(a *asset) {
+	vPrepareRegexps(a)
+	rep := a.Reps["A48"]
+	vLoadInit(rep)
+	ref := a.refRep
+	refTs, aTs := ref.MediaTimescale, rep.MediaTimescale
+	frame := int(*rep.ConstantSampleDuration)
+	startNr := vInt("startNr", 0, 1<<20)
+	n := vInt("n", 0, 1<<24)
+	cfg := vCfg(0, startNr, 60)
+	cfg.AvailabilityTimeOffsetS = vInf()
+	segID := startNr + n
+	segPart := vSegName(rep.MediaURI, segID)
+	so, err := createAudioSegment(os.DirFS("testdata/assets"), a, cfg, segPart, 0, rep, segID)
+	vAssert("C03.served.ok", err == nil)
+	if err != nil {
+		return
+	}
+	refStart, refEnd := vSegStartTicks(a, ref, n), vSegEndTicks(a, ref, n)
+	s := int(so.meta.newTime)
+	e := s + int(so.meta.newDur)
+	vAssert("C03.served.number", int(so.meta.newNr) == startNr+n)
+	vAssert("C03.served.start.frame-aligned", s%frame == 0)
+	vAssert("C03.served.start.not-early", s*refTs >= refStart*aTs)
+	vAssert("C03.served.start.less-than-a-frame-late", (s-frame)*refTs < refStart*aTs)
+	vAssert("C03.served.end.frame-aligned", e%frame == 0)
+	vAssert("C03.served.end.not-early", e*refTs >= refEnd*aTs)
+	vAssert("C03.served.end.less-than-a-frame-late", (e-frame)*refTs < refEnd*aTs)
+	vReach("C03.served.end")
 }
